@@ -141,6 +141,24 @@ def run(chk):
             want = ((loc if "base" in (loc or {}) else gl)["base"] + 4) * 2 + 1
             chk.ob(f"value/hy_eval returns eval(expr) after exec(stmts) in the given namespaces/{'g' if gl else '-'}{'l' if lo else '-'}",
                    v == want and (loc.get("y") == want - 1), "structural", "proved", detail=f"{v} vs {want}")
+        # the statements are executed whatever the namespaces already hold - also when they consist of the implicit `import hy`
+        # alone and the dictionary has a `hy` entry of its own (which the import must shadow for the duration of the call)
+        for nstmts, body in ((1, "import hy"), (2, "import hy\nz = 5"), (1, "z = 7")):
+            for lname, lmk in shapes.items():
+                for stdlib in (True, False):
+                    loc = lmk()
+                    loc.setdefault("z", 0)
+                    m = ast.parse(body)
+                    e = ast.parse("(hy.__name__ if 'import hy' in %r else 'hy', z)" % body, mode="eval")
+                    hc.hy_compile = lambda *a, **k: (m, e)
+                    try:
+                        v = real(Integer(0), loc, module=types.ModuleType("hv_c39d"), import_stdlib=stdlib)
+                    except Exception as ex:  # noqa: BLE001
+                        v = f"{type(ex).__name__}: {ex}"
+                    want = ("hy", 5 if "z = 5" in body else 7 if "z = 7" in body else 0)
+                    chk.case(("exec-always", body, lname, stdlib))
+                    chk.ob(f"value/hy_eval executes the statement part before the expression/{nstmts} statement(s) ({body.splitlines()[-1]})/"
+                           f"locals={lname}/import_stdlib={stdlib}", v == want, "structural", "proved", detail=f"{v!r} vs {want!r}")
     finally:
         hc.hy_compile = real_compile
 
@@ -148,18 +166,35 @@ def run(chk):
     srcs = ["(do 1 2 3)", "(do (setv q 4) (+ q 1))", "(raise (ValueError \"x\"))", "(do (setv q 1) (raise (KeyError 1)))",
             "(undefined-macro-or-fn 1)", "(setv", "(do (import os) (del hy) 5)", "(do (setv hy 9) hy)",
             "(do (import math :as hy) 1)", "(do (setv hy None) 1)", "(do (setv hy \"mine\") (raise (ValueError hy)))", "(defn hy [] 1)"]
+    srcs += ["(hy.repr [1 2])", ":kw", "'(a b)", "(hy.I.math.floor 2.5)", "(do 1 2 (+ 1 1))", "(hy.mangle \"a-b\")", "`(a ~(+ 1 1))",
+             "(do (setv q 2) (hy.repr q))", "(hy.models.Symbol \"s\")"]
     bad = []
+    badv = []
+
+    def outcome(src, d):
+        try:
+            return ("value", hy.eval(hy.read_many(src), locals=d, module=types.ModuleType("hv_c39c")))
+        except BaseException as e:  # noqa: BLE001
+            return ("raise", type(e).__name__)
     for src in srcs:
+        ref = outcome(src, {})
         for lname, lmk in shapes.items():
             d = lmk()
             had, was = "hy" in d, d.get("hy", SENT)
-            try:
-                hy.eval(hy.read_many(src), locals=d, module=types.ModuleType("hv_c39c"))
-            except BaseException:  # noqa: BLE001
-                pass
+            got = outcome(src, d)
             chk.case(("e2e", src, lname))
             if ("hy" in d) != had or (had and d["hy"] is not was):
                 bad.append((src, lname))
+            # the value (or the exception class) does not depend on what the dictionary held under `hy` before the call - unless the
+            # program itself reads or rebinds that variable
+            if "setv hy" not in src and "del hy" not in src and ":as hy" not in src and "defn hy" not in src:
+                same = got[0] == ref[0] and (got[1] == ref[1] or repr(got[1]) == repr(ref[1]))
+                if not same:
+                    badv.append((src, lname, got, ref))
+    chk.ob("e2e/the value of hy.eval does not depend on the dictionary's prior hy entry", not badv, "cpython-oracle", "bounded",
+           detail=str(badv[:3]), witness={"input": badv[0][:2]} if badv else None,
+           replay={"confirmed": True, "input": f"hy.eval of {badv[0][0]} with a {badv[0][1]} dictionary", "observed": repr(badv[0][2]),
+                   "expected": repr(badv[0][3])} if badv else None)
     chk.ob("e2e/real hy.eval on programs that return, raise, fail to read, delete or rebind hy", not bad, "cpython-oracle", "bounded",
            detail=str(bad), witness={"input": bad[0]} if bad else None,
            replay={"confirmed": True, "input": f"hy.eval of {bad[0][0]} with a {bad[0][1]} dictionary"} if bad else None)
